@@ -1,3 +1,4 @@
+import ErrModel.Generated.UnwrapFacts
 import ErrModel.Accessors
 import ErrModel.Proofs.Is
 import ErrModel.Ctor
@@ -243,5 +244,20 @@ theorem C07_newf_args_hidden (n : Nat) (rs : RStr) (st : Stack) (errArgs : List 
 theorem C07_mark_reference (P : Proc) (n : Nat) (e : Option Err) (r r' : Err) (h : getMark P r = getMark P r') :
     cMark P n e (some r) = cMark P n e (some r') := by
   cases e <;> simp [cMark, h]
+
+
+/-! ## The source's own Cause / Unwrap methods (regenerated on every run)
+
+`Generated/UnwrapFacts.lean`: every `Cause()` / `Unwrap()` method of a struct type of /repo that
+has an error-typed field, with the receiver field it returns; `hiddenFields` are the fields a
+package ships as an `EncodeError` payload instead of as a cause (the barrier's masked error, the
+secondary error). -/
+
+/-- no Cause/Unwrap method of the current source returns (or, when its body is not a plain
+    `return recv.field`, mentions) a hidden field -/
+theorem C07_hidden_fields_never_unwrapped : Unwrap.methods.all (fun m => !m.hidden) = true := by decide
+
+/-- the table is not vacuous: both hidden fields are recognised, and the wrapper types are listed -/
+theorem C07_hidden_fields_found : 2 ≤ Unwrap.hiddenFields.length ∧ 20 ≤ Unwrap.methods.length := by decide
 
 end ErrModel
